@@ -23,6 +23,8 @@ RULE = (
     "registration hook sees every class created through the meta-class outside icontract exactly once; (d) contracts added by "
     "an integrator through add_*_to_checker after decoration are enforced by the next call. Non-trivial = member with effective "
     "contracts from >=1 class; distinct = (shape, kind, class, truth vector)."
+    ' Same-name program: distinct classes sharing module and qualified name (class factory called three times, name'
+    ' bound again, dataclass(slots=True), hand-made copy) are each announced exactly once.'
 )
 ASSUMPTIONS = ["the integrator recipe is the one of tests/test_for_integrators.py and the README"]
 
